@@ -670,8 +670,8 @@ func Delete(ctx context.Context, scope *ReferenceScope, query parser.DeleteQuery
 		}
 	}
 
-	fileInfos := make([]*FileInfo, 0)
-	deletedCounts := make([]int, 0)
+	// All tables are prepared before the first one is published, so that an interruption or an error
+	// does not leave some of them changed.
 	for k, v := range viewsToDelete {
 		if ctx.Err() != nil {
 			return nil, nil, ConvertContextError(ctx.Err())
@@ -688,7 +688,11 @@ func Delete(ctx context.Context, scope *ReferenceScope, query parser.DeleteQuery
 		if err = v.RestoreHeaderReferences(); err != nil {
 			return nil, nil, err
 		}
+	}
 
+	fileInfos := make([]*FileInfo, 0)
+	deletedCounts := make([]int, 0)
+	for k, v := range viewsToDelete {
 		if v.FileInfo.IsInMemoryTable() {
 			scope.ReplaceTemporaryTable(v)
 		} else if v.FileInfo.IsFile() {
